@@ -132,7 +132,7 @@ def configs(rng, one_line_len, n, all_widths):
     return cfgs
 
 
-def drive(chk, prop, jobs, subs=(), env=None, mode='eq', rule=''):
+def drive(chk, prop, jobs, subs=(), env=None, mode='eq', rule='', syntactic=False):
     """Generic pipeline: print -> parse (syntax only) -> TLC judges TEq(Denote(obs), expected).
 
     jobs yields (key, value, cfg, expected_term, oracle) where oracle(evaluated) -> bool is the
@@ -202,7 +202,9 @@ def drive(chk, prop, jobs, subs=(), env=None, mode='eq', rule=''):
     for c in caselist:
         desc, py_ok = meta[c['id']]
         tla_ok = c['id'] in acc
-        if tla_ok != py_ok:
+        # syntactic: the property also prescribes the FORM of the text (C08: a call of the subclass around the literal),
+        # which evaluation cannot see - there only "accepted by the spec but not evaluating equal" is a disagreement
+        if tla_ok != py_ok and not (syntactic and py_ok):
             chk.machinery_error('PyTerm.tla and the Python cross-oracle disagree (tla=%s, python=%s) on %r'
                                 % (tla_ok, py_ok, desc))
         if not tla_ok:
@@ -440,7 +442,7 @@ def check_c08(chk, args):
                             cfg = {'width': w, 'ribbon_width': rng.choice([w, max(1, w // 2), 200]),
                                    'indent': rng.choice([2, 4])}
                             yield (vi, val, cfg, expected, (lambda back, val=val: same(back, val)))
-    drive(chk, 'C08', jobs(), subs=subs, env=env, rule=(
+    drive(chk, 'C08', jobs(), subs=subs, env=env, syntactic=True, rule=(
         'for each built-in base (list, tuple, set, frozenset, dict, str, bytes, int, float): subclasses plain / '
         'overriding __repr__ / __str__ / both, and an IntEnum; x base values (empty, short, long enough to split, '
         'special floats) x contexts (top, list element, dict value, dict key, sole tuple element) x widths; the parsed '
